@@ -402,6 +402,10 @@ namespace
                 R.guard = true;
                 s[u].obj = new (s[u].mem) SV(il);
                 R.guard = false;
+                // the list is the caller's (a named list may build several containers): its elements keep their values
+                for (size_t i = 0; i < il.size(); i++)
+                    if (val_of(il.begin()[i]) != val + (int)i)
+                        violate("C14/argument-modified", "element %zu of the initializer list holds %d after a static_vector was built from it, it held %d (it was moved from instead of copied)", i, val_of(il.begin()[i]), val + (int)i);
                 s[u].m.clear();
                 for (size_t i = 0; i < il.size(); i++) s[u].m.push_back(val + (int)i);
                 truncate(s[u].m);
